@@ -133,3 +133,40 @@ func SplitSign1(env []byte) (protected, unprotected, payload, sig []byte, err er
 	}
 	return
 }
+
+// DeclaredCOSEAlg returns the integer value of label 1 (alg) in an encoded protected header map.
+func DeclaredCOSEAlg(protected []byte) (int64, bool) {
+	major, n, off, err := readHead(protected)
+	if err != nil || major != 5 {
+		return 0, false
+	}
+	b := protected[off:]
+	for i := uint64(0); i < n; i++ {
+		kl, err := itemLen(b)
+		if err != nil {
+			return 0, false
+		}
+		key := b[:kl]
+		b = b[kl:]
+		vl, err := itemLen(b)
+		if err != nil {
+			return 0, false
+		}
+		val := b[:vl]
+		b = b[vl:]
+		if len(key) == 1 && key[0] == 0x01 {
+			m, arg, _, err := readHead(val)
+			if err != nil {
+				return 0, false
+			}
+			switch m {
+			case 0:
+				return int64(arg), true
+			case 1:
+				return -1 - int64(arg), true
+			}
+			return 0, false
+		}
+	}
+	return 0, false
+}
